@@ -232,7 +232,8 @@ impl<F: Float, L: Label + std::fmt::Debug> TreeNode<F, L> {
 
             // We keep a running total of the aggregate weight in the right split
             // to avoid having to sum over the hash map
-            let total_weight = parent_class_freq.values().sum::<f32>();
+            // summed in a fixed order, like the impurities, so that it does not depend on the hash map
+            let total_weight = sorted_frequencies(&parent_class_freq).iter().sum::<f32>();
             let mut weight_on_right_side = total_weight;
             let mut weight_on_left_side = 0.0;
 
